@@ -305,8 +305,35 @@ def check(run: Run) -> None:
             run.finding("C15.m", f"with_error_capture:builder-fields-not-carried-over:{'+'.join(miss)}", f"NodeBuilder::with_error_capture does not copy {miss} into the derived builder "
                         "(with_passive_inputs does): a capturing node loses that part of its configuration", loc=NODE)
 
+    with run.obligation("C15.n", "K4", "the captured error carries the exception's message unchanged: in node_error.cpp `error_msg` is written exactly once per capture, by moving the "
+                        "message handed to capture_node_error into the record, and nothing edits it afterwards (no resize / substr / erase / append / replace on it) - the text a "
+                        "consumer of the error output reads is what the failing node's exception said"):
+        NE = "src/hgraph/runtime/node_error.cpp"
+        fi_ = run.tree.file(NE)
+        edits, stores = [], []
+        for fd_ in fi_.funcs:
+            if fd_.body is None or "error_msg" not in fi_.text(fd_.body[0], fd_.body[1]):
+                continue
+            fa_ = R.parse(run, fd_, strict=False)
+            cn_ = R.Canon()
+            for x in fa_.body.walk():
+                if isinstance(x, C.Binary) and x.op in C._ASSIGN and cn_(x.l).endswith(".error_msg"):
+                    (stores if x.op == "=" else edits).append((fd_, fa_, x, cn_(x.r) if x.op == "=" else x.op))
+                if isinstance(x, C.Call) and isinstance(x.fn, C.Member) and cn_(x.fn.obj).endswith(".error_msg") and \
+                        x.fn.name in ("resize", "erase", "append", "replace", "assign", "insert", "clear", "pop_back", "push_back", "substr"):
+                    edits.append((fd_, fa_, x, x.fn.name))
+        run.sites(len(stores), 1, "stores of error_msg")
+        run.count(len(stores) + len(edits), "C15.n")
+        for fd_, fa_, x, rhs in stores:
+            if rhs.replace(" ", "") not in ("std::move(error_msg)", "error_msg"):
+                run.finding("C15.n", f"{fd_.name}:error-message-not-verbatim", f"{fd_.qual} stores `{rhs[:80]}` as the error message instead of the message it was handed", loc=fa_.loc(x))
+        for fd_, fa_, x, op in edits:
+            run.finding("C15.n", f"{fd_.name}:error-message-edited:{op}", f"{fd_.qual} edits the captured error message ({op}): the message on the error output differs from the "
+                        "exception's text (for example clipped at a length bound)", loc=fa_.loc(x))
+
 
 VARIANTS = [
+    {"id": "n-seed-C15-7-message-clipped", "expect": "C15.n", "edits": [{"file": "src/hgraph/runtime/node_error.cpp", "find": "        fields.error_msg   = std::move(error_msg);", "replace": "        fields.error_msg   = std::move(error_msg);\n        if (fields.error_msg.size() > 256) { fields.error_msg.resize(256); fields.error_msg += \"...\"; }"}]},
     {"id": "m-seed-C15-8-capture-builder-drops-scalars", "expect": "C15.m", "edits": [{"file": NODE, "find": "        result.label_           = label_;\n        result.scalars_         = scalars_;\n        return result;", "replace": "        result.label_           = label_;\n        return result;", "nth": 0}]},
     {"id": "l-error-erase-for-every-removed-key", "expect": "C15.l", "edits": [{"file": "src/hgraph/runtime/map_node.cpp", "find": "            if (error_mutation != nullptr && error_mutation->contains(entry->key.view()))", "replace": "            if (error_mutation != nullptr)"}]},
     {"id": "h-revert-fix-failed-cycle-resumed", "expect": "C15.h", "edits": [{"file": "src/hgraph/runtime/graph.cpp", "find": "      !state.evaluation_failed && state.evaluation_cursor != 0 &&\n      state.evaluation_cursor != invalid_cursor;", "replace": "      state.evaluation_cursor != 0 && state.evaluation_cursor != invalid_cursor;"}]},
